@@ -3,6 +3,8 @@
 
 from __future__ import annotations
 
+import json
+
 import dataclasses
 import weakref
 from contextvars import ContextVar
@@ -199,9 +201,14 @@ class AddWaiter(BaseModel, Generic[EventType]):
     @model_serializer(mode="wrap")
     def _serialize(self, handler: Any) -> dict[str, Any]:
         data = handler(self)
-        # Always serialize requirements as {} and record whether they existed
+        # Record whether requirements existed. They are kept when they are plain
+        # JSON values (replaying persisted ticks needs them to match events the
+        # way the live run did); otherwise they are serialized as {}.
         data["has_requirements"] = bool(self.requirements)
-        data["requirements"] = {}
+        try:
+            data["requirements"] = json.loads(json.dumps(self.requirements))
+        except (TypeError, ValueError):
+            data["requirements"] = {}
         return data
 
     @model_validator(mode="wrap")  # type: ignore[ty:invalid-argument-type]
